@@ -176,11 +176,13 @@ def closure_lookups(prog, fn_path):
 
 # ----------------------------------------------------------------------------------------
 
-def inverse_maps(ctx, prog, rule_maps, rule_cov, rule_fmt):
+def inverse_maps(ctx, prog, rule_maps, rule_cov, rule_fmt, only=None):
     n_struct, n_fields = 0, 0
     skel_problems = []
     for label, adt, wfn, rfns in STRUCTS:
         if label == "Blob":
+            continue
+        if only is not None and label not in only:
             continue
         w, text, problems, root = writer_fields(prog, adt, wfn)
         r = reader_fields(prog, rfns)
@@ -221,10 +223,14 @@ def inverse_maps(ctx, prog, rule_maps, rule_cov, rule_fmt):
                 if s["vtype"] in NUMERIC:
                     ok = s["spec"] is None or xmlgen.plain_spec(s["spec"])
                     ok = ok and s["trait"].startswith("display") if "trait" in s else ok
+                    # the number written is the field itself: no arithmetic between the field and the formatter
+                    arith = [x for x in leaves(s["tree"]) if x[0] in ("binop", "unop") or (x[0] == "call" and x[1].rsplit("::", 1)[-1] in (
+                        "abs", "neg", "mul", "add", "sub", "div", "round", "floor", "ceil", "trunc", "min", "max", "clamp", "rem", "powi", "sqrt"))]
+                    ctx.ob(rule_fmt, "value-is-field/%s.%s" % (label, fld), not arith, "%s.%s is written as %s (must be the stored field itself, not a value computed from it)" % (label, fld, tree_str(strip_deep(s["tree"]))[:120]), nontrivial=False)
                     if not ok or True:
                         ctx.ob(rule_fmt, "plain-display/%s.%s" % (label, fld), ok, "%s.%s (%s) is formatted with spec %s (must be plain {} Display: shortest round-trip representation)" % (label, fld, s["vtype"], s["spec"]), nontrivial=False)
-    ctx.floor(rule_maps, "structures compared", n_struct, 14)
-    ctx.floor(rule_maps, "fields compared", n_fields, 80)
+    ctx.floor(rule_maps, "structures compared", n_struct, 14 if only is None else len(only))
+    ctx.floor(rule_maps, "fields compared", n_fields, 80 if only is None else 4 * len(only))
     ctx.ob("R3w", "skeleton-fragments", not skel_problems, "per-structure XML fragments tokenise as balanced XML: %s" % skel_problems[:5]) if False else None
     return skel_problems
 
@@ -1035,6 +1041,54 @@ def setters(ctx, prog, rule):
             ok = strip(inner) == ("param", 2)
         ctx.ob(rule, "setter/%s" % short(p), ok, "%s stores %s (must store its argument unchanged into the field '%s')" % (short(p), [(w, tree_str(strip(t))[:60]) for w, t in writes], want))
     ctx.floor(rule, "metadata setters", n, 27)
+
+
+PURE_TEXT_CALLS = ("to_string", "to_owned", "into", "from", "clone", "as_str", "deref", "borrow", "as_ref", "unwrap_or", "unwrap_or_default", "to_str")
+
+
+def string_values_unchanged(ctx, prog, rule):
+    """the string a reader helper returns for an element is the element's text itself: between Node::text() and the
+    returned String only conversions may happen (no trim, replace, case change, slicing)"""
+    for path in ("xml::opt_string",):
+        f = prog.fn(path)
+        ctx.fn_seen(f)
+        R = Resolver(f, max_depth=40)
+        payloads = []
+        for bi in f.cfg():
+            for st in f.blocks[bi]["stmts"]:
+                rv = st["rv"]
+                if is_variant_agg(rv, "option::Option", "Some") and rv["ops"] and "String" in f.local_ty(st["place"]["local"]):
+                    payloads.append((bi, R.operand(rv["ops"][0])))
+        # `tag.map(|t| t.text()...to_string())` style: the Some is built by a combinator expansion as well
+        ok = bool(payloads)
+        desc = []
+
+        def pure(x, depth=0):
+            while x[0] in ("ok", "cast", "ref", "partial"):
+                x = x[2] if x[0] == "cast" else x[1]
+            if depth > 16:
+                return False
+            if x[0] == "phi":
+                return all(pure(a, depth + 1) for a in x[1])
+            if x[0] == "const":
+                return isinstance(x[2], str) and x[2] == ""           # the default for an element without text
+            if x[0] == "field" and x[2] in ("Some.0", "0"):
+                return pure(x[1], depth + 1)
+            if x[0] != "call":
+                return False
+            last = x[1].rsplit("::", 1)[-1]
+            if last == "text" and "Node" in x[1]:
+                return True
+            if last == "new" and "String" in x[1] and not x[2]:
+                return True
+            desc.append(last)
+            if last in PURE_TEXT_CALLS and x[2]:
+                return all(pure(a, depth + 1) for a in x[2][:2])
+            return False
+        for bi, t in payloads:
+            ok = ok and pure(t)
+        desc = sorted(set(desc))
+        ctx.ob(rule, "text-unchanged/%s" % short(path), ok, "%s builds its String from Node::text() through %s (only conversions may stand in between)" % (short(path), desc))
 
 
 def raw_xml_identity(ctx, prog, rule):
